@@ -447,7 +447,7 @@ def appendDt (x : Sys) (other : Arg) (cfg : DtArg) : Except Err Sys :=
 
 inductive UnOp where
   | neg | pow (k : Int) | getitem | copy | rename
-  | toSS | toTF | toFRD | toNL        -- `ss(sys)`/`tf2ss`, `tf(sys)`/`ss2tf`, `frd(sys, omega)`, `nlsys(sys)`
+  | toSS | toTF | toFRD | toNL        -- `ss(sys)`/`tf2ss`, `tf(sys)`/`ss2tf`, `frd(sys, omega)` / `frd(F)`, `nlsys(sys)`
   | similarity | reachable | observable | modelReduction | minreal | linearize
   | sample (ts : Rat)
   deriving DecidableEq, Repr, Inhabited
@@ -520,7 +520,9 @@ def unDt (op : UnOp) (x : Sys) (cfg : DtArg) : Except Err Sys :=
       .ok ⟨.tf, y⟩
   -- `frd(sys, omega)`: `arg_dt = sys.dt`; `common_timebase(sys.dt, arg_dt)` when not `None`.
   -- FIXED: for `sys.dt is None` the unchanged code falls through to the config default.
-  | .toFRD, .ss | .toFRD, .tf => do
+  -- `frd(F)` / `FrequencyResponseData(F)` of an FRD `F` (one-argument copy constructor): `arg_dt = F.dt`,
+  -- then the same two lines.
+  | .toFRD, .ss | .toFRD, .tf | .toFRD, .frd => do
       let d ← (if x.dt = .none then .ok .none else common x.dt x.dt)
       let y ← givenDt d cfg
       .ok ⟨.frd, y⟩
